@@ -45,6 +45,10 @@ func VerifC09Matches() {
 	mods := ModifierMask(zzverif.Uint8("mods"))
 
 	got := k.Matches(key, mods)
+	// the binding's modifiers may be passed as several arguments, also overlapping ones:
+	// they are combined as a set
+	part := ModifierMask(zzverif.Uint8("modsPart")) & mods
+	zzverif.Assert(k.Matches(key, mods, part) == got && k.Matches(key, part, mods&^part) == got, "modifier-arguments-combine-as-a-set")
 
 	// (1) a match implies identical Ctrl/Alt/Super/Hyper/Meta
 	zzverif.Assert(!got || (k.Modifiers&verifRealMods == mods&verifRealMods), "match-implies-equal-real-modifiers")
@@ -86,7 +90,10 @@ func VerifC09OwnBinding() {
 	// lock bits are excluded here: a real report with Caps Lock carries the shifted text,
 	// which this hand-built event does not (see the decoder-based harness)
 	k.Modifiers = ModifierMask(zzverif.Uint8("mods")) & (ModShift | ModAlt | ModCtrl | ModSuper | ModHyper | ModMeta)
-	zzverif.Known("C09-plus-key-with-modifiers", k.Keycode == '+' && k.Modifiers&^(ModCapsLock|ModNumLock) != 0)
+	// the description and the binding syntax do not depend on how the key event arose: a
+	// press, an auto-repeat and a pasted key describe the same chord (a release is named
+	// without its modifiers by design and is excluded)
+	k.EventType = []EventType{EventPress, EventRepeat, EventPaste}[zzverif.Choose("eventType", 3)]
 	s := k.String()
 	zzverif.Assert(k.MatchString(s), "chord-matches-own-string")
 	zzverif.Reach("end")
